@@ -6,11 +6,15 @@
 #include <yaclib/async/future.hpp>
 #include <yaclib/async/promise.hpp>
 #include <yaclib/async/wait.hpp>
+#include <yaclib/async/wait_for.hpp>
+#include <yaclib/async/wait_until.hpp>
 #include <yaclib/exe/inline.hpp>
 #include <yaclib/exe/manual.hpp>
 #include <yaclib/runtime/fair_thread_pool.hpp>
 
+#include <chrono>
 #include <utility>
+#include <yaclib_std/chrono>
 #include <yaclib_std/thread>
 
 namespace {
@@ -32,13 +36,16 @@ enum Consumer : int {
   kWaitTouch,
   kConnect,
   kDropFuture,
+  kWaitForGet,        // timed wait racing the fulfilment, then Get
+  kWaitUntilThen,     // timed wait racing the fulfilment, then a continuation
   kConsumerCount
 };
 enum Exec : int { kExInline, kExManual, kExPool, kExecCount };
 
 const char* kProducerNames[] = {"Set(value)", "Set(error)", "Set(exception)", "drop promise"};
 const char* kConsumerNames[] = {"Get&&",        "ThenInline",  "Then(e)",  "Detach()", "DetachInline(f)",
-                                "Detach(e,f)",  "poll Get&",   "Wait+Touch", "Connect",  "drop future"};
+                                "Detach(e,f)",  "poll Get&",   "Wait+Touch", "Connect",  "drop future",
+                                "WaitFor+Get",  "WaitUntil+ThenInline"};
 const char* kExecNames[] = {"inline", "manual", "pool1"};
 
 // Continuation functor with a Tracked capture: counts invocations, records what it saw, where and when.
@@ -61,6 +68,9 @@ class Case final : public sim::CaseBase {
     ready_samples = static_cast<int>(g.Draw(3));
     cons_delay = static_cast<int>(g.Draw(4));
     prod_delay = static_cast<int>(g.Draw(4));
+    static const std::uint32_t kNs[] = {0, 40, 150, 500, 2000};
+    timeout_ns = kNs[g.Draw(5)];
+    prod_sleep_ns = kNs[g.Draw(5)];
     id = 1 + g.Noise(1000);
     consumer_first = g.Flip();
   }
@@ -75,6 +85,10 @@ class Case final : public sim::CaseBase {
     if (consumer == kThenInline || consumer == kThenExec) {
       j.KV("tail", tail_get ? "Get" : "Detach");
     }
+    if (consumer == kWaitForGet || consumer == kWaitUntilThen) {
+      j.KV("timeout_ns", timeout_ns);
+    }
+    j.KV("producer_sleep_ns", prod_sleep_ns);
     j.KV("ready_samples", ready_samples).KV("consumer_delay", cons_delay).KV("producer_delay", prod_delay).KV("id", id).KV("consumer_spawned_first", consumer_first);
   }
 
@@ -103,6 +117,9 @@ class Case final : public sim::CaseBase {
   void Produce(yaclib::Promise<V, SimError> p) {
     for (int i = 0; i < prod_delay; ++i) {
       sim::Yield();
+    }
+    if (prod_sleep_ns != 0) {
+      sim::SleepNs(prod_sleep_ns);
     }
     sim::RaceWrite(&payload_cell, sizeof payload_cell);
     payload_cell = id;  // plain write that must be visible to whoever observes completion (C04 race build)
@@ -239,6 +256,36 @@ class Case final : public sim::CaseBase {
         sim::RaceRead(&payload_cell, sizeof payload_cell);
         seen_cell = payload_cell;
       } break;
+      case kWaitForGet:
+      case kWaitUntilThen: {
+        using namespace std::chrono;
+        const std::uint64_t t0 = sim::NowNs();
+        const bool ok = consumer == kWaitForGet ? yaclib::WaitFor(nanoseconds{timeout_ns}, f)
+                                                : yaclib::WaitUntil(yaclib_std::chrono::steady_clock::now() + nanoseconds{timeout_ns}, f);
+        if (ok) {
+          if (!f.Ready()) {
+            sim::Fail("WAIT_NOT_READY", "timed wait returned true but Ready() is false");
+          }
+        } else {
+          SIM_FAULT("deadline_fired");
+          if (sim::NowNs() < t0 + timeout_ns) {
+            sim::Fail("FALSE_BEFORE_DEADLINE", "timed wait returned false before its deadline");
+          }
+        }
+        // whatever the timed wait said, the completion must still be delivered exactly once afterwards
+        if (consumer == kWaitForGet) {
+          Res r = std::move(f).Get();
+          direct.calls = 1;
+          direct.at = sim::Seq();
+          direct.got = sim::Observe(r, "Get after a timed wait");
+          sim::RaceRead(&payload_cell, sizeof payload_cell);
+          seen_cell = payload_cell;
+        } else {
+          auto f2 = std::move(f).ThenInline(MakeCont<V>(cont, "continuation attached after a timed wait"));
+          auto r = std::move(f2).Get();
+          tail_state = static_cast<int>(r.State());
+        }
+      } break;
       default: {
         SIM_FAULT("future_dropped");
         auto dead = std::move(f);
@@ -321,8 +368,8 @@ class Case final : public sim::CaseBase {
 
   void Finish() final {
     const Outcome model = Model();
-    const bool has_cont = consumer == kThenInline || consumer == kThenExec || consumer == kDetachInline || consumer == kDetachExec;
-    const bool has_direct = consumer == kGet || consumer == kPollGet || consumer == kWaitTouch || consumer == kConnect;
+    const bool has_cont = consumer == kThenInline || consumer == kThenExec || consumer == kDetachInline || consumer == kDetachExec || consumer == kWaitUntilThen;
+    const bool has_direct = consumer == kGet || consumer == kPollGet || consumer == kWaitTouch || consumer == kConnect || consumer == kWaitForGet;
     if (has_cont) {
       SIM_CHECK(cont.calls >= 1, "LOST", "%s on %s: continuation never ran", kConsumerNames[consumer], kProducerNames[producer]);
       SIM_CHECK(cont.calls <= 1, "DUPLICATE", "%s: continuation ran %d times", kConsumerNames[consumer], cont.calls);
@@ -365,7 +412,7 @@ class Case final : public sim::CaseBase {
 
   int consumer = 0, producer = 0, exec = 0, ready_samples = 0, cons_delay = 0, prod_delay = 0;
   bool is_void = false, tail_get = false, consumer_first = false;
-  std::uint32_t id = 1;
+  std::uint32_t id = 1, timeout_ns = 0, prod_sleep_ns = 0;
 
   Seen cont, direct;
   std::uint64_t set_invoke = 0, set_return = 0, consume_invoke = 0, consume_return = 0;
